@@ -801,10 +801,11 @@ def initOkVariant : List Shape → Nat → Init → Bool
   | [], _, _ => false
 end
 
-/-- `init` of a fixed type: zeroes for `DefaultInit`, the owned bytes otherwise. -/
+/-- `init` of a fixed type: `T::default_init()` for `DefaultInit` (zeroes unless the type has a
+hand-written default, `Fixed.dflt`), the owned bytes otherwise. -/
 def initFixedBytes (f : Fixed) : Init → List Nat
   | .owned l => l
-  | _ => zeros f.size
+  | _ => f.dflt
 
 mutual
 /-- The bytes `UnsizedInit::init` writes (`checked.rs` 137–174, `list.rs` 581–644,
